@@ -99,8 +99,8 @@ func VerifC13Update() {
 	}
 	withFaults := v.Param("faults", 1) == 1
 	hasExtra := withFaults || v.Choice("hasExtraRule", 2) == 1
+	var r1 *Rule
 	if hasExtra {
-		var r1 *Rule
 		if withFaults {
 			r1 = vrfRuleC13("g", "r1", 1, false, 0)
 		} else {
@@ -122,7 +122,7 @@ func VerifC13Update() {
 	}
 	k := 0
 	fkv.FailWrite = func(op, key string) bool { k++; return k-1 == faultAt }
-	op := v.Choice("op", 5)
+	op := v.Choice("op", 6)
 	var update func() error
 	switch op {
 	case 0:
@@ -155,6 +155,16 @@ func VerifC13Update() {
 	case 4:
 		grp := &RuleGroup{ID: "g", Index: v.Choice("groupIndex", 2), Override: v.Choice("groupOverride", 2) == 1}
 		update = func() error { cp := *grp; return m.SetRuleGroup(&cp) }
+	case 5:
+		// the extra rule is set again (same group, id and range) with role and override chosen afresh:
+		// an unchanged rule is a no-op, one that differs in a single field is a real update
+		if !hasExtra {
+			return
+		}
+		again := *r1
+		again.Role = vrfRolesC13[v.Choice("againRole", 2)]
+		again.Override = v.Choice("againOverride", 2) == 1
+		update = func() error { cp := again; return m.SetRule(&cp) }
 	}
 	err := update()
 	fkv.FailWrite = nil
@@ -206,11 +216,45 @@ func VerifC13Update() {
 	if len(got) == len(want) {
 		for i := range want {
 			v.Assert("rules-by-key-order", got[i].GroupID == want[i].group && got[i].ID == want[i].id)
+			// ... and they are the configured rules, not an earlier or a rejected version of them
+			v.Assert("rules-by-key-content", got[i].Override == want[i].override && got[i].Role == want[i].role &&
+				got[i].Index == want[i].index && got[i].Count == want[i].count &&
+				v.ConcreteBool(v.BytesEq(got[i].StartKey, want[i].start)) && v.ConcreteBool(v.BytesEq(got[i].EndKey, want[i].end)))
+		}
+	}
+	// the smallest region at the key is given the configured rules of its segment after rule and group override
+	var exp []vrfRuleView
+	for _, r := range want {
+		if r.groupOverride {
+			for _, e := range exp {
+				if e.group != r.group {
+					exp = nil // a group with override drops every group ordered before it
+					break
+				}
+			}
+		}
+		if r.override {
+			kept := exp[:0:0]
+			for _, e := range exp {
+				if e.group != r.group {
+					kept = append(kept, e)
+				}
+			}
+			exp = kept // a rule with override drops the rules of its group ordered before it
+		}
+		exp = append(exp, r)
+	}
+	applied := m.GetRulesForApplyRegion(core.NewRegionInfo(vrfPointRegion(q), nil))
+	v.Assert("apply-rules-count", len(applied) == len(exp))
+	if len(applied) == len(exp) {
+		for i := range exp {
+			v.Assert("apply-rules-after-override", applied[i].GroupID == exp[i].group && applied[i].ID == exp[i].id &&
+				applied[i].Override == exp[i].override && applied[i].Role == exp[i].role)
 		}
 	}
 	// valid rule set after override: at least one leader/voter, at most one leader
 	leaders, voters := 0, 0
-	for _, r := range m.GetRulesForApplyRegion(core.NewRegionInfo(vrfPointRegion(q), nil)) {
+	for _, r := range applied {
 		if r.Role == Leader {
 			leaders += r.Count
 		} else if r.Role == Voter {
